@@ -41,6 +41,15 @@ C11_SYSCTL = (" Sysctl part: the same enumerations (depth <= 3), the 1..300 reco
               "\"N\\n\", cannot create files), injects the scripted permission / not-exist / I/O failures and logs in the format of the recording State, "
               "so the same host-state oracle applies; any other path, key or value, or a final file content different from the last successful write, is a violation.")
 E2E_RULE = {
+    "C18": (" Whole-process part (24 / 1200 cases): every monitoring interface of the running process receives an RA (M set, lifetime 1800 s, one prefix), the same RA "
+            "with hop limit 64 and an RS; a scrape of the real /metrics afterwards must show exactly: received counters for the RA and the RS under their hosts, the "
+            "M/O gauges, default-route and prefix expiry timestamps within [read, scrape] + lifetime, the prefix flags, one invalid RA - and nothing else for that interface."),
+    "C12": (" Whole-process part (24 / 1200 cases): every advertising interface receives another router's RA that equals its own header with the M flag flipped (and a "
+            "copy with hop limit 64): /metrics must show inconsistencies_total{field=managed_configuration} = 1 and no other inconsistency for that interface, and the log "
+            "exactly one 'inconsistencies detected' line."),
+    "C07": (" Whole-process part (24 / 1200 cases): after scripted traffic (valid and hop-limit-64 RS, a foreign RA and its hop-limit-64 copy) the real /metrics must show "
+            "received-by-type and invalid-by-type counters equal to the messages read, and sent-by-type counters between the numbers of RAs the fake OS had logged 100 ms "
+            "before the scrape began and when it ended."),
     "C11": (" Whole-process part (24 / 1200 cases, every mode of the whole-process generator: signals, a signal before Serve, missing and late interfaces, fatal and "
             "recoverable receive errors): when the process has ended every connection it opened was closed exactly once and left its group at most once, never two "
             "open at a time per interface, the autoconf setting of an advertising interface was written as (disable, restore previous value) once per connection, "
@@ -216,9 +225,11 @@ PROPS = {
         "level_note": "Trusts github.com/mdlayher/ndp's decoder as the reader of the wire format.",
     },
     "C12": {
-        "pkg": "internal/corerad",
-        "files": ["corerad/zz_verif_C12_test.go"],
-        "run": "TestVerif_C12",
+        "parts": [
+            {"pkg": "internal/corerad", "run": "TestVerif_C12", "shards": {"quick": 8, "thorough": 16},
+             "files": ["corerad/zz_verif_C12_test.go"]},
+            e2e_part("TestVerif_C12main"),
+        ],
         "level": "exploration",
         "quick": {"shards": 8},
         "thorough": {"shards": 16},
@@ -280,12 +291,14 @@ PROPS = {
         "level_note": "Trusts testing/synctest's fake clock and the in-memory Conn; timestamps are exact (zero processing time).",
     },
     "C07": {
-        "pkg": "internal/corerad",
-        "files": ["corerad/zz_verif_C12_test.go", "corerad/zz_verif_sim_test.go", "corerad/zz_verif_adv_test.go", "corerad/zz_verif_C06_test.go", "corerad/zz_verif_C07_test.go"],
-        "run": "TestVerif_C07",
+        "parts": [
+            {"pkg": "internal/corerad", "run": "TestVerif_C07", "shards": {"quick": 8, "thorough": 16},
+             "files": ["corerad/zz_verif_C12_test.go", "corerad/zz_verif_sim_test.go", "corerad/zz_verif_adv_test.go", "corerad/zz_verif_C06_test.go", "corerad/zz_verif_C07_test.go"],
+             "patches": [{"name": "rand-source", "file": "internal/corerad/advertise.go", "pattern": r"rand\.NewSource\(", "repl": "vkNewSource(", "count": 2}]},
+            e2e_part("TestVerif_C07main"),
+        ],
         "level": "exploration",
         "bubble": True,
-        "patches": [{"name": "rand-source", "file": "internal/corerad/advertise.go", "pattern": r"rand\.NewSource\(", "repl": "vkNewSource(", "count": 2}],
         "quick": {"shards": 8},
         "thorough": {"shards": 16},
         "rule": ("histories of up to 40 events on a real Advertiser.Run in a synctest bubble: solicitations from 6 link-local/global/ULA sources "
@@ -463,10 +476,12 @@ PROPS = {
         "level_note": "Trusts expectRA/reference (shared document model), testing/synctest, and plugin wrappers whose Prepare injects simulated address/route sources; series with duplicate label identities are unspecified.",
     },
     "C18": {
-        "pkg": "internal/corerad",
-        "files": ["corerad/zz_verif_C12_test.go", "corerad/zz_verif_sim_test.go", "corerad/zz_verif_adv_test.go", "corerad/zz_verif_mon_test.go", "corerad/zz_verif_C06_test.go", "corerad/zz_verif_C04_test.go", "corerad/zz_verif_C17_test.go", "shared/zz_verif_doc_test.go", "corerad/zz_verif_C18_test.go", "corerad/zz_verif_wire_test.go"],
-        "run": "TestVerif_C18",
-        "fuzz": [{"target": "FuzzVerif_C18wire", "seconds": 120}],
+        "parts": [
+            {"pkg": "internal/corerad", "run": "TestVerif_C18", "shards": {"quick": 8, "thorough": 16},
+             "files": ["corerad/zz_verif_C12_test.go", "corerad/zz_verif_sim_test.go", "corerad/zz_verif_adv_test.go", "corerad/zz_verif_mon_test.go", "corerad/zz_verif_C06_test.go", "corerad/zz_verif_C04_test.go", "corerad/zz_verif_C17_test.go", "shared/zz_verif_doc_test.go", "corerad/zz_verif_C18_test.go", "corerad/zz_verif_wire_test.go"],
+             "fuzz": [{"target": "FuzzVerif_C18wire", "seconds": 120}]},
+            e2e_part("TestVerif_C18main"),
+        ],
         "level": "exploration",
         "bubble": True,
         "quick": {"shards": 8},
